@@ -63,12 +63,15 @@ def _cases(draw, nmax):
                 pos.append([3.0 * p[0], 3.0 * p[1], 3.0 * p[2] + 0.5 * (i % 2)])
         geom = {"pos": pos,
                 "epsr": draw(st.sampled_from([1.0, 1.5, 2.0, 3.0])),
-                "u_read": draw(st.sampled_from(UNITS))}
+                "u_read": draw(st.sampled_from(UNITS)),
+                "route": draw(st.sampled_from(["set", "calculate"]))}
     # what the built aggregate is used for before its operators are read (the built operators must stay the site-basis
     # Frenkel ones whatever else is done with the aggregate)
     uses = draw(st.lists(st.sampled_from(["diagonalize", "read-in-eigenbasis", "read", "ham-there-and-back-in-units"]), max_size=2))
     return {"N": n, "E": E, "J": J, "d": d, "mult": mult, "perm": list(perm), "uses": uses,
             "rebuild_shift": draw(st.sampled_from([0, 0, 130, -75])),
+            # the rebuild is made while other energy units are current
+            "rebuild_units": draw(st.sampled_from([None, None, "1/cm", "eV"])),
             "u_in": draw(st.sampled_from(UNITS)), "u_build": draw(st.sampled_from(UNITS)), "geom": geom}
 
 
@@ -187,6 +190,17 @@ def check_case(case, ctx):
     ctx.close("hamiltonian/symmetric", H, H.T, rtol=1e-12, scale=escale)
     ctx.close("dipole/elements", D, Dref, rtol=1e-12, scale=3.0, mult=mult)
 
+    # ---- the electronic Hamiltonian (for purely electronic aggregates documented to equal the Hamiltonian) --------
+    def electronic():
+        with qr.energy_units("int"):
+            return numpy.array(agg.get_electronic_Hamiltonian().data, dtype=float)
+    ok, He = guarded(ctx, "electronic-hamiltonian", electronic)
+    if ok:
+        if He.shape != Href.shape:
+            ctx.fail("electronic-hamiltonian/shape", got=list(He.shape), want=list(Href.shape))
+        else:
+            ctx.close("electronic-hamiltonian/elements", He, Href, rtol=1e-10, scale=escale, mult=mult)
+
     # ---- units used for input / at build time -------------------------------------
     u_in, u_b = case["u_in"], case["u_build"]
     ok, agg_u = guarded(ctx, "units/build", lambda: build_aggregate(qr, E, J, d, mult, u_in, u_b), u_in + "," + u_b)
@@ -232,7 +246,11 @@ def check_case(case, ctx):
             a.diagonalize()
             with qr.energy_units("1/cm"):
                 a.monomers[0].set_energy(1, float(E[0] + case["rebuild_shift"]))
-            a.rebuild(mult=mult)
+            if case.get("rebuild_units"):
+                with qr.energy_units(case["rebuild_units"]):
+                    a.rebuild(mult=mult)
+            else:
+                a.rebuild(mult=mult)
             a.diagonalize()
             return numpy.array(a.HD, dtype=float)
         ok, hd = guarded(ctx, "rebuild", rebuilt)
@@ -241,7 +259,7 @@ def check_case(case, ctx):
             E2[0] = (E[0] + case["rebuild_shift"]) * orc.CM2INT
             H2, _ = orc.frenkel_matrices(sigs, E2, Jint, d)
             ctx.close("rebuilt-aggregate/exciton-energies", numpy.sort(hd), numpy.linalg.eigvalsh(H2), rtol=1e-9, scale=escale)
-            ctx.label("rebuilt-after-energy-change")
+            ctx.label("rebuilt-after-energy-change" + ("-in-units" if case.get("rebuild_units") else ""))
 
     # ---- point-dipole couplings -----------------------------------------------------
     g = case["geom"]
@@ -249,7 +267,11 @@ def check_case(case, ctx):
         def build_geom():
             a = build_aggregate(qr, E, [[0] * n for _ in range(n)], d, 1, "1/cm", "1/cm", pos=g["pos"])
             with qr.energy_units(g["u_read"]):
-                a.set_coupling_by_dipole_dipole(epsr=g["epsr"])
+                if g.get("route", "set") == "set":
+                    a.set_coupling_by_dipole_dipole(epsr=g["epsr"])
+                else:
+                    # the general entry point with the method named and its parameters in a dictionary
+                    a.calculate_resonance_coupling(method="dipole-dipole", params=dict(epsr=g["epsr"]))
             return a
         ok, ag = guarded(ctx, "point-dipole", build_geom)
         if ok:
